@@ -328,3 +328,26 @@ def int_consts(node):
         if isinstance(n, ast.UnaryOp) and isinstance(n.op, ast.USub) and isinstance(n.operand, ast.Constant) and isinstance(n.operand.value, int):
             out.add(-n.operand.value)
     return out
+
+
+def consistent_paths(paths, env, atom_of, scale=1, bool_atoms=None):
+    """Paths all of whose *evaluable* tests (those inside the comparison fragment over known atoms) have the
+    outcome they would have under env.  Tests outside the fragment do not constrain."""
+    out = []
+    for p in paths:
+        ok = True
+        for e in p.events:
+            if e.kind != "test":
+                continue
+            try:
+                v = Evaluator(env, atom_of, scale, bool_atoms).truth(e.node)
+            except Unsupported:
+                continue
+            except TypeError:
+                continue
+            if v != e.pol:
+                ok = False
+                break
+        if ok:
+            out.append(p)
+    return out
